@@ -1,7 +1,8 @@
 // C12 — a reported fix is a real fix: re-analysis matches the report.
 //
 // Bounded-exhaustive exploration over the same generated universes as C11
-// (verif/universe GenFix with the Lite bounds, npm/relax and Maven/override),
+// (verif/universe GenFix with the Lite bounds, plus GenScopeShape "shift": universes in which the patch
+// changes the depth or the dev-only reachability of a vulnerable transitive package; npm/relax and Maven/override),
 // each multiplied by every option variant of universe.OptionVariants (default,
 // ignore list, explicit list, dev dependencies off, depth 1/2, severity
 // threshold, no-introduce), always with MaxUpgrades=1.
@@ -446,6 +447,11 @@ func main() {
 		perOption[k] = &[2]atomic.Int64{}
 	}
 
+	// the small position-shift shape first (a patch changes depth / dev-only reachability of a vulnerable package)
+	for _, sh := range u.ScopeShapes {
+		runAll(stOverride, func(emit func(*u.Case)) { b.GenScopeShape(u.Maven, sh, emit) })
+		runAll(stRelax, func(emit func(*u.Case)) { b.GenScopeShape(u.NPM, sh, emit) })
+	}
 	for _, sh := range u.FixShapes {
 		runAll(stOverride, func(emit func(*u.Case)) { b.GenFixShape(u.Maven, sh, emit) })
 		runAll(stRelax, func(emit func(*u.Case)) { b.GenFixShape(u.NPM, sh, emit) })
